@@ -28,13 +28,19 @@ func (b *builder) tag(s string) { b.tags[s]++ }
 // names: sometimes with inner blanks and surrounding spaces (sanitised by the exporter)
 func (b *builder) name(prefix string) string {
 	b.n++
-	switch b.r.Below(6) {
+	switch b.r.Below(8) {
 	case 0:
 		b.tag("name-with-blanks")
 		return fmt.Sprintf("%s %d", prefix, b.n)
 	case 1:
 		b.tag("name-with-blanks")
 		return fmt.Sprintf(" %s %d x ", prefix, b.n)
+	case 2: // runs of blanks: every blank becomes an underscore of its own
+		b.tag("name-with-runs-of-blanks")
+		return fmt.Sprintf("%s  %d", prefix, b.n)
+	case 3: // runs of blanks inside, blanks and tabs around (trimmed)
+		b.tag("name-with-runs-of-blanks")
+		return fmt.Sprintf("\t %s   %d  y \t", prefix, b.n)
 	default:
 		return fmt.Sprintf("%s_%d", prefix, b.n)
 	}
